@@ -18,3 +18,16 @@ package types
 //@   loop 0 invariant len(ret) == rangeindex + 1 && rangeindex + 1 <= len(ja)
 //@   ensures[same-length] len(result) == len(ja)
 //@   modifies nothing
+
+// ConvertToJSONSupportedValue normalises a Go value to what JSON can carry, identically on the replica that issues an
+// operation and on every replica that decodes it: every Go integer or float (or pointer to one) becomes a float64,
+// pointers to strings/bools are dereferenced; anything else is passed through. (Which float64 — the numeric value —
+// is library/hardware semantics and not decided here: C14's excluded clause.)
+//@ func ConvertToJSONSupportedValue
+//@   mode math
+//@   props C14
+//@   ensures[integers-become-float64] t != nil && (t.(int) || t.(int8) || t.(int16) || t.(int32) || t.(int64) || t.(uint) || t.(uint8) || t.(uint16) || t.(uint32) || t.(uint64)) ==> result != nil && result.(float64)
+//@   ensures[floats-become-float64]   t != nil && (t.(float32) || t.(float64)) ==> result != nil && result.(float64)
+//@   ensures[strings-pass]  t != nil && t.(string) ==> result != nil && result.(string) && result.(as string) == t.(as string)
+//@   ensures[bools-pass]    t != nil && t.(bool) ==> result != nil && result.(bool) && result.(as bool) == t.(as bool)
+//@   modifies nothing
